@@ -2821,7 +2821,7 @@ def check_C16(tier, seed):
         _, kind, payload, ticks = core.parse_line(ls[-1])
         tl = [] if ticks in ('-', '?', None) else ticks.split(',')
         ks = list(range(1, len(tl) + 1))
-        if len(ks) > 8: ks = sorted(rng.sample(ks, 8))
+        if len(ks) > 8 and i < nprog: ks = sorted(rng.sample(ks, 8))       # the hand-written texts are probed at every point
         for k in ks:
             mode = rng.choice(['string', 'string', 'file', 'nested'])
             c = Case('e%d_%d' % (i, k))
